@@ -171,8 +171,14 @@ def run(prog: Program, rep: Report, tier: str):
     tests = [m for m, nd in cfg.nodes.items() if nd.kind == "test" and fa.sym.term(nd.ast, m) == has_tf]
 
     def is_tf(s_):
-        return s_ is not None and s_[0] == "call" and s_[1] == tf and len(s_[2]) == 1 and (
-            s_[2][0] in (raw, raw_attr) or s_[2][0][0] == "var")
+        if not (s_ is not None and s_[0] == "call" and s_[1] == tf and len(s_[2]) == 1):
+            return False
+        a_ = s_[2][0]
+        # the cached sample itself, a local holding it, or a copy of it (deepcopy / copy / clone)
+        if a_[0] == "call" and a_[2] and ((a_[1][0] == "global" and a_[1][1].rsplit(".", 1)[-1] in ("deepcopy", "copy")) or (
+                a_[1][0] == "attr" and a_[1][2] in ("clone", "copy"))):
+            a_ = a_[2][0] if a_[1][0] == "global" else a_[1][1]
+        return a_ in (raw, raw_attr) or a_[0] == "var"
 
     # judged on the CFG pruned by each of the two configurations: with a transform set every return must hand back
     # transform(<cached sample>), without one the cached sample itself - whatever the control flow looks like
@@ -208,6 +214,40 @@ def run(prog: Program, rep: Report, tier: str):
     rep.decide(not stores, "G8.transform-after-cache", gi, "no-store", "__getitem__ stores nothing",
                f"__getitem__ stores to {', '.join(v for _, v in stores)}: a transformed value can end up in the cache",
                clause="C19.3", nontrivial=False)
+    # ---- the transform must not be able to reach the cached object ---------------------------------------------------------
+    rep.rule("G8.transform-on-copy", "the object handed to the post-cache transform is not the object the cache keeps (or a view of "
+             "its storage): either __getitem__ passes a copy (copy.deepcopy / copy.copy / .clone() / .copy()) to the transform, "
+             "or every cache implementation stores / returns a copy.  A transform may work in place (x.mul_(..), normalisation "
+             "with inplace=True); torch tensors put into a multiprocessing Manager dict share their storage with the stored "
+             "entry, so an in-place transform would rewrite the cache and compound with every access")
+    COPY = ("deepcopy", "copy", "clone")
+
+    def is_copy(e) -> bool:
+        return isinstance(e, ast.Call) and ((isinstance(e.func, ast.Attribute) and e.func.attr in COPY) or (
+            isinstance(e.func, ast.Name) and e.func.id in COPY))
+    tcalls = [(n, c) for n, c in fa.calls() if fa.sym.term(c.func, n) == tf and c.args]
+    verdict, why_t = None, "no application of self.transform found"
+    if tcalls:
+        handed = [fa.expand(c.args[0], n) for n, c in tcalls]
+        if all(is_copy(h) for h in handed):
+            verdict, why_t = True, "the transform receives a copy of the cached sample"
+        else:
+            # the cached object itself travels to the transform: do the caches hand out copies?
+            safe = bool(impls)
+            for C in impls:
+                cfa = fa_of(prog, C.methods["_cached_getitem"])
+                stores_ = [val for n_, var, val in cfa.stores() if var.endswith("[]") and val is not None]
+                rets_ = [cfa.ret_ast(n_)[0] for n_, t_ in cfa.returns()]
+                stores_copy = bool(stores_) and all(is_copy(cfa.expand(v, 0) if False else v) for v in stores_)
+                returns_copy = bool(rets_) and all(r is not None and is_copy(r) for r in rets_)
+                safe = safe and (stores_copy or returns_copy)
+            verdict = True if safe else False
+            why_t = "every cache implementation stores / returns copies" if safe else (
+                "CachedDataset.__getitem__ hands the object returned by _cached_getitem to self.transform as it is, and "
+                f"{', '.join(C.name for C in impls)} stores and returns the loaded object itself: an in-place transform on a torch "
+                "tensor sample rewrites the cached entry (tensors in a Manager dict share storage) - the second access returns "
+                "transform(transform(x))")
+    rep.decide(verdict, "G8.transform-on-copy", gi, "aliasing", why_t, why_t, clause="C19.3")
     ln = base.methods.get("__len__")
     if ln is not None:
         la = fa_of(prog, ln)
